@@ -23,6 +23,7 @@ from .. import copycontract
 from ..astutil import call_name, calls, const_eval, dotted, names_in, param_names, stmts, walk_local
 from ..cfg import CFG
 from ..core import AnalysisError, Mutant
+from ..exprnorm import same_expr
 from ..program import ClassIndex
 
 EXPLANATION = (
@@ -251,12 +252,27 @@ def run(ctx):
                 ok = "unsigned char" in decl.get(ix.id, "") or any(
                     isinstance(st, ast.For) and ix.id in names_in(st.target)
                     and any("unsigned char" in ptypes.get(nm, "") for nm in names_in(st.iter)) for st in stmts(enc))
+                # the byte value is the table index, its position in the alphabet the stored code
+                if ok and isinstance(n.ctx, ast.Store):
+                    for st in stmts(enc):
+                        if isinstance(st, ast.For) and any(x is n for x in ast.walk(st)) and same_expr(st.iter, "enumerate(alphabet)") \
+                                and isinstance(st.target, ast.Tuple) and len(st.target.elts) == 2:
+                            ok = ast.unparse(st.target.elts[1]) == ix.id
             ctx.ob("R4.table-index-is-byte", CODEC, "encode_chars", n, ok,
                    f"sym_to_code is subscripted by `{why}`, which is not an unsigned char: under "
                    "boundscheck(False) a larger value reads outside the 256-entry table", n.lineno)
+    def local_def(f_, name):
+        ds = [st.value for st in stmts(f_) if isinstance(st, ast.Assign) and any(isinstance(t_, ast.Name) and t_.id == name for t_ in st.targets)]
+        return ds[0] if len(ds) == 1 else None
+
+    fill = [st for st in stmts(enc) if isinstance(st, ast.Assign) and isinstance(st.targets[0], ast.Subscript)
+            and ast.unparse(st.targets[0].value) == "sym_to_code" and isinstance(st.targets[0].slice, ast.Slice)]
+    tests = [n for n in ast.walk(enc) if isinstance(n, ast.If) and any(isinstance(b, ast.Raise) for b in n.body)]
     ctx.ob("R4.sentinel", CODEC, "encode_chars", "illegal_code = alphabet.shape[0]; == illegal_code -> AlphabetError",
-           "illegal_code = alphabet.shape[0]" in ast.unparse(enc) and "symbol_code == illegal_code" in ast.unparse(enc)
-           and "[illegal_code] * 256" in ast.unparse(enc),
+           same_expr(local_def(enc, "illegal_code"), "alphabet.shape[0]")
+           and len(fill) == 1 and same_expr(fill[0].value, "[illegal_code] * 256")
+           and any(same_expr(t_.test, "symbol_code == illegal_code") for t_ in tests)
+           and same_expr(local_def(enc, "symbol_code"), "sym_to_code[symbols[i]]"),
            "every byte that is not a symbol must map to the sentinel = alphabet length", enc.lineno)
     dec = cd.func("decode_to_chars")
     g2 = CFG(dec, lambda st: isinstance(st, ast.Raise))
@@ -268,7 +284,7 @@ def run(ctx):
     ctx.need(reads, "alphabet[symbol_code] read in decode_to_chars")
     ctx.ob("R4.decode-guarded", CODEC, "decode_to_chars", "symbol_code >= alphabet_length before alphabet[symbol_code]",
            bool(guards) and all(any(gd.id in dom2.get(r.id, set()) for gd in guards) for r in reads)
-           and "alphabet_length = alphabet.shape[0]" in ast.unparse(dec),
+           and same_expr(local_def(dec, "alphabet_length"), "alphabet.shape[0]"),
            "the unchecked read of the alphabet must be dominated by the range test", dec.lineno)
 
     # ---------------- R5 copy contract ---------------------------------------
@@ -445,6 +461,9 @@ MUTANTS = [
            "R1.complement-mapper"),
     Mutant("dict-1to3-drops-x", TYPES, '        "X": "UNK",\n', "", "R1.letter-table-total"),
     Mutant("dict-3to1-not-inverted", TYPES, "        _dict_3to1[_value] = _key\n", "        _dict_3to1[_key] = _value\n", "R1.letter-table-inverse"),
+    Mutant("codec-sentinel-last-code", CODEC, "    cdef uint8 illegal_code = alphabet.shape[0]\n", "    cdef uint8 illegal_code = alphabet.shape[0] - 1\n", "R4.sentinel"),
+    Mutant("codec-length-plus-one", CODEC, "    cdef int alphabet_length = alphabet.shape[0]\n", "    cdef int alphabet_length = alphabet.shape[0] + 1\n", "R4.decode-guarded"),
+    Mutant("codec-table-transposed", CODEC, "    for i, symbol in enumerate(alphabet):\n        sym_to_code[symbol] = i\n", "    for i, symbol in enumerate(alphabet):\n        sym_to_code[i] = symbol\n", "R4.table-index-is-byte"),
     Mutant("codec-table-128", CODEC, "    cdef uint8 sym_to_code[256]\n", "    cdef uint8 sym_to_code[128]\n", "R4.table-size"),
     Mutant("codec-symbols-signed-char", CODEC, "                 const unsigned char[:] symbols not None):", "                 const char[:] symbols not None):",
            "R4.table-index-is-byte"),
